@@ -97,7 +97,7 @@ struct ThetaCompactFamily {
     un.update(u);
     sk = un.get_result((seed & 1) != 0);
   }
-  static bool merge_ref(Env&, Obj& d, const Obj& s) {
+  template <typename SrcT> static bool merge_ref(Env&, Obj& d, SrcT& s) {
     LibScope ls;
     ThUnion un = typename ThUnion::builder(d.get_allocator()).set_lg_k(6).build();
     un.update(d); un.update(s);
@@ -314,7 +314,7 @@ struct TupleCompactFamily {
     if (seed & 2) un.update(u); else un.update(u.compact((seed & 4) != 0));
     sk = un.get_result((seed & 1) != 0);
   }
-  static bool merge_ref(Env&, Obj& d, const Obj& s) {
+  template <typename SrcT> static bool merge_ref(Env&, Obj& d, SrcT& s) {
     LibScope ls;
     TuUnion un = make_union(d.get_allocator());
     un.update(d); un.update(s);
